@@ -165,7 +165,9 @@ class C16(Property):
     ASSUMPTIONS = [
         'a traceback text is compared without the interpreter\'s final newline (to_string() never emits one); '
         'ExceptionInfo.get_formatted() is compared with the interpreter\'s output minus that final newline',
-        'position-marker lines (only ~ ^ and spaces, after a source line) are not reproduced by to_string()/get_formatted()',
+        'position-marker lines (only ~ ^ and spaces, after a source line) are left aside: formatted output is compared '
+        'with the interpreter\'s text without them, and output that keeps any of the interpreter\'s own marker lines is '
+        'accepted as well (boltons prints none today)',
         'Callpoint.line / to_dict()["line"] keeps leading indentation; it is compared with FrameSummary.line after strip()',
         'call chains are shallower than sys.getrecursionlimit() (TracebackInfo stops at 1000 entries by default)',
         'text is a sequence of Unicode scalar values; str() of the exception does not raise; no SyntaxError, '
@@ -1285,6 +1287,41 @@ class C16(Property):
             out.append('\n'.join(keep))
         return ''.join(out)
 
+    @staticmethod
+    def _flag_lines(frame_chunks, other_chunks):
+        """the interpreter's lines, each with a flag: is it a position-marker line (of a frame chunk)"""
+        out = []
+        for chunks, framey in ((frame_chunks, True), (other_chunks, False)):
+            for ch in chunks:
+                ls = ch.split('\n')
+                if ls and ls[-1] == '':
+                    ls.pop()
+                for j, l in enumerate(ls):
+                    out.append([l, bool(framey and j >= 2 and l.strip() and set(l) <= set('~^ '))])
+        return out
+
+    @staticmethod
+    def _same(text, stripped, flagged, final_nl):
+        """`text` is the interpreter's text, position-marker lines aside: exactly the text without them, or the text
+        with any of the interpreter's own marker lines kept (boltons prints none today; printing them would be no
+        violation).  `final_nl`: does `text` carry the interpreter's final newline"""
+        if text is None or flagged is None:
+            return text == stripped
+        if text + ('' if final_nl else '\n') == stripped:
+            return True
+        lines = text.split('\n')
+        if final_nl:
+            if lines[-1] != '':
+                return False
+            lines.pop()
+        i = 0
+        for l, mark in flagged:
+            if i < len(lines) and lines[i] == l:
+                i += 1
+            elif not mark:
+                return False
+        return i == len(lines)
+
     def run_live(self, case):
         from boltons import tbutils
         obs = {}
@@ -1336,19 +1373,23 @@ class C16(Property):
                 assert chunks[0] == HEADER + '\n' and chunks[len(chunks) - len(only):] == only
                 obs['std_full'] = ''.join(chunks)
                 obs['std'] = chunks[0] + self._strip_markers(chunks[1:len(chunks) - len(only)]) + ''.join(only)
+                obs['std_fl'] = self._flag_lines(chunks[:len(chunks) - len(only)], only)
                 obs['std_plain'] = chunks[0] + ''.join(
                     traceback.format_list([(f.filename, f.lineno, f.name, f.line) for f in [g]])[0] for g in ex) + ''.join(only)
                 obs['std_tb'] = HEADER + '\n' + self._strip_markers(traceback.format_tb(tb, limit=limit))
+                obs['std_tb_fl'] = self._flag_lines([HEADER + '\n'] + traceback.format_tb(tb, limit=limit), [])
                 obs['std_tb_plain'] = HEADER + '\n' + ''.join(
                     traceback.format_list([(f.filename, f.lineno, f.name, f.line) for f in [g]])[0] for g in exl)
                 if limit is not None and limit >= 1:
                     chl = traceback.format_exception(et, ev, tb, limit=limit)
                     assert chl[0] == HEADER + '\n' and chl[len(chl) - len(only):] == only
                     obs['std_lim'] = chl[0] + self._strip_markers(chl[1:len(chl) - len(only)]) + ''.join(only)
+                    obs['std_lim_fl'] = self._flag_lines(chl[:len(chl) - len(only)], only)
                     obs['std_lim_plain'] = chl[0] + ''.join(
                         traceback.format_list([(f.filename, f.lineno, f.name, f.line) for f in [g]])[0] for g in exl) + ''.join(only)
                 else:
                     obs['std_lim'] = obs['std'] if limit is None else None
+                    obs['std_lim_fl'] = obs['std_fl'] if limit is None else None
                     obs['std_lim_plain'] = obs['std_plain'] if limit is None else None
                 stype = self._std_type(obs['attrs'])
                 assert only[-1] == stype + (': ' + str(ev) if str(ev) else '') + '\n'
@@ -1629,16 +1670,17 @@ class C16(Property):
             return Failure('exc_fields', 'ExceptionInfo (%r, %r), interpreter (%r, %r)'
                            % (obs['ei_type'], obs['ei_msg'], obs['std_type'], obs['std_msg']))
         std = obs['std']
-        if obs['ei'] + '\n' != std:
+        fl, tfl = obs.get('std_fl'), obs.get('std_tb_fl')
+        if not self._same(obs['ei'], std, fl, False):
             return Failure('format', 'ExceptionInfo.get_formatted() = %r, interpreter = %r' % (obs['ei'], std))
         only = std[len(std) - len(obs['ei_only']) - 1:]
         if obs['ei_only'] + '\n' != only:
             return Failure('format', 'get_formatted_exception_only() = %r, interpreter = %r' % (obs['ei_only'], only))
-        if obs['tbi'] != obs['std_tb'] or obs['tbi_str'] != obs['tbi']:
+        if not self._same(obs['tbi'], obs['std_tb'], tfl, True) or obs['tbi_str'] != obs['tbi']:
             return Failure('format', 'TracebackInfo.get_formatted() = %r, format_tb = %r' % (obs['tbi'], obs['std_tb']))
-        if obs['print'] != std:
+        if not self._same(obs['print'], std, fl, True):
             return Failure('format', 'print_exception wrote %r (%s), interpreter = %r' % (obs['print'], obs.get('print_exc'), std))
-        if obs['std_lim'] is not None and obs['print_lim'] != obs['std_lim']:
+        if obs['std_lim'] is not None and not self._same(obs['print_lim'], obs['std_lim'], obs.get('std_lim_fl'), True):
             return Failure('format', 'print_exception(limit=%r) wrote %r (%s), interpreter = %r'
                            % (case.get('limit'), obs['print_lim'], obs.get('print_lim_exc'), obs['std_lim']))
         # the same exception through from_current() / from_traceback() while it was being handled, and through
@@ -1646,21 +1688,21 @@ class C16(Property):
         if 'cur' not in obs:
             return Failure('raises', 'ExceptionInfo.from_current() raised %s' % obs.get('cur_exc'))
         cf = [[a, b, c, (d or '').strip()] for a, b, c, d in obs['cur_frames']]
-        if cf != sf or obs['cur'] + '\n' != std:
+        if cf != sf or not self._same(obs['cur'], std, fl, False):
             return Failure('format' if cf == sf else 'frames', 'ExceptionInfo.from_current(): frames %r, text %r; interpreter: %r, %r'
                            % (cf, obs['cur'], sf, std))
-        if obs['cur_tbi'] != obs['std_tb']:
+        if not self._same(obs['cur_tbi'], obs['std_tb'], tfl, True):
             return Failure('format', 'TracebackInfo.from_traceback(limit=%r) of the exception being handled = %r, format_tb = %r'
                            % (case.get('limit'), obs['cur_tbi'], obs['std_tb']))
         xf = [[a, b, c, (d or '').strip()] for a, b, c, d in obs['cei_frames']]
-        if xf != sf or obs['cei'] + '\n' != std:
+        if xf != sf or not self._same(obs['cei'], std, fl, False):
             return Failure('format' if xf == sf else 'frames', 'ContextualExceptionInfo: frames %r, text %r; interpreter: %r, %r'
                            % (xf, obs['cei'], sf, std))
         # the interpreter's own text through the parser (first clause on real texts)
         p = obs['parsed']
         if not self._parsed_ok(p, obs):
             return Failure('parse_std', 'interpreter text %r parsed as %r' % (obs['std_full'], p))
-        if p['str'] + '\n' != std:
+        if not self._same(p['str'], std, fl, False):
             return Failure('parse_std', 'to_string() of the parsed interpreter text = %r, text = %r' % (p['str'], std))
         self._nt = len(sf) >= 2
         return None
